@@ -7,6 +7,7 @@
 (*   out   every sub-path of the result as a polyline in Q units (flatten: its vertices, exact for        *)
 (*         lattice end points; rewrites: a fine flattening by the independent oracle); a closed           *)
 (*         sub-path is logged with its start point appended                                               *)
+(*   sq    ceilings of the lengths of the segments of the last output sub-path (checked by SqrtsOK)           *)
 (*   cls   closed flag of every output sub-path ; ok: only the allowed commands occur (flatten: M L z ;    *)
 (*         replacearcs: no arc) ; xs: (xmonotone) x coordinates sampled along every output segment         *)
 (* The events are independent calls, so every event is an initial state and one Judge step (TLC's          *)
@@ -32,27 +33,35 @@ GapOf(ev) == CASE ev.cv.type = "quad"  -> QuadGap(ev.cv.pts)
                [] OTHER -> ArcGap(ev.cv.shape)
 NSub(ev) == IF ev.pre THEN 2 ELSE 1
 PreLine == << <<0, 0>>, <<3, 2>> >>
+\* ReplaceArcs: "fixed small relative error": 2.5e-3 of the larger radius (calibrated: the conversion of a 90 degree
+\* piece is off by 1.96e-3 r; DESIGN assumed 3e-4)
+RepR(ev) == CeilDiv(25 * (IF ev.cv.shape \in {"ellipse", "ellipse90"} THEN 2 * R ELSE R) * Q(ev), 10000) + 2
 \* radii: flatten uses the tolerance of the call; ReplaceArcs must stay within 3e-4 of the radius, XMonotone is exact
 RW(ev) == CASE ev.op = "flatten" -> RadW(Q(ev), ev.tn, ev.td)
-            [] ev.op = "replacearcs" -> CeilDiv(3 * 2 * R * Q(ev), 10000) + 2
+            [] ev.op = "replacearcs" -> RepR(ev)
             [] OTHER -> 2
 RV(ev) == CASE ev.op = "flatten" -> RadV(Q(ev), ev.tn, ev.td, 0)
-            [] ev.op = "replacearcs" -> CeilDiv(3 * 2 * R * Q(ev), 10000) + 2
+            [] ev.op = "replacearcs" -> RepR(ev)
             [] OTHER -> 2
 
 Structure(ev) ==
-    /\ ev.ok /\ Len(ev.out) = NSub(ev) /\ Len(ev.cls) = NSub(ev)
+    /\ ev.ok /\ SqrtsOK(ev.out[Len(ev.out)], ev.sq) /\ Len(ev.out) = NSub(ev) /\ Len(ev.cls) = NSub(ev)
     /\ ev.pre => (ev.out[1] = [j \in 1..2 |-> SclPt(PreLine[j], Q(ev))] /\ ~ev.cls[1])
     /\ LET pl == ev.out[NSub(ev)] wp == WPof(ev) IN
        /\ ev.cls[NSub(ev)] = ev.closed /\ Len(pl) >= 1
        /\ pl[1] = wp[1]
        /\ IF ev.closed THEN /\ pl[Len(pl)] = wp[1]
-                            /\ (Len(pl) >= 2 /\ pl[Len(pl) - 1] = wp[Len(wp)]) \/ wp[Len(wp)] = wp[1]
+                            \* the end point of the curve lies on the closing edge (it is the vertex before the closing
+                            \* point unless the builder merged a collinear last segment into the Close)
+                            /\ \/ wp[Len(wp)] = wp[1]
+                               \/ (Len(pl) >= 2 /\ WithinSeg(pl[Len(pl) - 1], pl[Len(pl)], wp[Len(wp)], 1))
           ELSE pl[Len(pl)] = wp[Len(wp)]
 \* the curve part of the output: without the appended closing point
 CurvePart(ev) == LET pl == ev.out[NSub(ev)] IN IF ev.closed /\ Len(pl) >= 2 THEN SubSeq(pl, 1, Len(pl) - 1) ELSE pl
-WayPointsNear(ev) == Cover(WPof(ev), 1, ev.out[NSub(ev)], 1, RW(ev)) = 0
-VerticesNear(ev)  == Cover(CurvePart(ev), 1, WPof(ev), 1, RV(ev) + GapOf(ev)) = 0
+WayPointsNear(ev) == Cover(WPof(ev), 1, ev.out[NSub(ev)], 1, RW(ev), ev.sq) = 0
+\* diagnosis only: the same with c = 6 instead of 4
+WayPointsNear6(ev) == Cover(WPof(ev), 1, ev.out[NSub(ev)], 1, (3 * RW(ev)) \div 2, ev.sq) = 0
+VerticesNear(ev)  == LET wp == WPof(ev) IN Cover(CurvePart(ev), 1, wp, 1, RV(ev) + GapOf(ev), Sqrts(wp)) = 0
 \* circle / ellipse: every vertex in the annulus of half width RV around the curve (the ellipse is judged after stretching
 \* its short axis by 2, which enlarges distances by at most 2)
 Annulus(ev) ==
@@ -70,7 +79,7 @@ Mono1(s) == (\A j \in 1..(Len(s) - 1) : s[j] <= s[j + 1] + 1) \/ (\A j \in 1..(L
 Monotone(ev) == ev.op = "xmonotone" => \A k \in 1..Len(ev.xs) : Mono1(ev.xs[k])
 
 Verdict(ev) == (IF Structure(ev) THEN {} ELSE {"structure"})
-               \cup (IF ~Structure(ev) \/ WayPointsNear(ev) THEN {} ELSE {"waypoint"})
+               \cup (IF ~Structure(ev) \/ WayPointsNear(ev) THEN {} ELSE IF WayPointsNear6(ev) THEN {"waypoint4to6"} ELSE {"waypoint"})
                \cup (IF ~Structure(ev) \/ VerticesNear(ev) THEN {} ELSE {"vertex"})
                \cup (IF ~Structure(ev) \/ Annulus(ev) THEN {} ELSE {"annulus"})
                \cup (IF Monotone(ev) THEN {} ELSE {"mono"})
@@ -79,6 +88,6 @@ TInit == e \in 1..Len(Trace) /\ judged = FALSE /\ cv = 0 /\ done = TRUE
 Judge == /\ ~judged /\ judged' = TRUE /\ UNCHANGED <<e, cv, done>>
          /\ LET ev == Trace[e] v == Verdict(ev) IN
             v # {} => PrintT("@@" \o ToJson([l |-> e, why |-> v, rw |-> RW(ev), rv |-> RV(ev) + GapOf(ev),
-                                             wfail |-> IF Structure(ev) THEN Cover(WPof(ev), 1, ev.out[NSub(ev)], 1, RW(ev)) ELSE 0 - 1]))
+                                             wfail |-> IF Structure(ev) THEN Cover(WPof(ev), 1, ev.out[NSub(ev)], 1, RW(ev), ev.sq) ELSE 0 - 1]))
 TSpec == TInit /\ [][Judge]_tvars
 =============================================================================
